@@ -40,7 +40,8 @@ def q_c(name):
 
 
 # (label, path, strip, applicability) - see build()
-DIALECTS = ['plain', 'both-names', 'timestamps', 'git', 'git-mode', 'orig', 'quoted', 'quoted-space', 'plus-first', 'prose', 'p0', 'p2', 'deep', 'git-rename']
+KF05 = 'deletion-expressed-only-by-an-epoch-time-stamp'
+DIALECTS = ['plain', 'both-names', 'timestamps', 'diff-N', 'git', 'git-mode', 'orig', 'quoted', 'quoted-space', 'plus-first', 'prose', 'p0', 'p2', 'deep', 'git-rename']
 
 
 def build(dialect, case, rev):
@@ -74,10 +75,12 @@ def build(dialect, case, rev):
     if dialect in ('quoted', 'quoted-space'):
         spell_o, spell_n = q_c(oname.decode()), q_c(nname.decode())
     ts = b''
-    if dialect == 'timestamps':
+    if dialect in ('timestamps', 'diff-N'):
         ts = b'\t2020-01-02 03:04:05.000000000 +0000'
-    old_line = b'--- ' + (b'/dev/null' if (a_abs and dialect != 'both-names') else spell_o) + (b'\t1970-01-01 00:00:00.000000000 +0000' if (ts and a_abs) else ts) + b'\n'
-    new_line = b'+++ ' + (b'/dev/null' if (b_abs and dialect != 'both-names') else spell_n) + (b'\t1970-01-01 00:00:00.000000000 +0000' if (ts and b_abs) else ts) + b'\n'
+    # 'diff-N': what `diff -urN` writes - real names on both sides, the absent side marked by the epoch as its time stamp only
+    real_names = dialect in ('both-names', 'diff-N')
+    old_line = b'--- ' + (b'/dev/null' if (a_abs and not real_names) else spell_o) + (b'\t1970-01-01 00:00:00.000000000 +0000' if (ts and a_abs) else ts) + b'\n'
+    new_line = b'+++ ' + (b'/dev/null' if (b_abs and not real_names) else spell_n) + (b'\t1970-01-01 00:00:00.000000000 +0000' if (ts and b_abs) else ts) + b'\n'
     head = b''
     if dialect in ('git', 'git-mode', 'git-rename'):
         head += b'diff --git ' + oname + b' ' + nname + b'\n'
@@ -136,6 +139,8 @@ def case_run(task):
     dst = case['A'] if rev else case['B']
     if case['nh'] == 1 and case['c'] == 0 and case['zero'] and case['top'] and src and dst and not case['a_abs'] and not case['b_abs']:
         tags = {KF01}
+    if dialect == 'diff-N' and (case['a_abs'] if rev else case['b_abs']):
+        tags = {KF05}
     mode = o.cls if o.cls not in ('0', '1') else ('not-applied' if o.cls == '1' else 'wrong-tree')
     out['violations'].append((wsweep.cls(tags), mode, {'kind': 'cli', 'files': {k: [common.b2s(v[0]), v[1]] for k, v in start.items()}, 'patches': {'p1.patch': common.b2s(text)}, 'series': [line],
                                                        'args': ['-a', '-q', '--backup', 'never'], 'threads': threads, 'series_desc': 'dialect %s%s' % (dialect, ' -R' if rev else ''),
